@@ -123,8 +123,8 @@ func (l Labels) Equal(b Labels) bool {
 	if len(l) != len(b) {
 		return false
 	}
-	for k := range l {
-		if l[k] != b[k] {
+	for k, v := range l {
+		if bv, ok := b[k]; !ok || bv != v {
 			return false
 		}
 	}
